@@ -1,5 +1,6 @@
 //! C19 — saving a problem to JSON and loading it back reproduces the same problem; malformed
 //! files produce an error, not a panic.
+use crate::common::*;
 use clarabel::solver::{DefaultSettings, DefaultSolver, SolverJSONReadWrite, SolverStatus};
 use serde_json::{json, Value};
 use std::io::{Read, Seek, SeekFrom, Write};
@@ -261,7 +262,51 @@ fn w_roundtrip(ctx: &mut Ctx) {
                     }
                     if !edited_after && !extreme {
                         if v1 != '-' && v2 != '-' && v1 != v2 {
-                            bad("loaded_solve_verdict", json!({"original": status_name(r1.status), "loaded": status_name(r2.status)}));
+                            // Classification for the known-findings file.  The scale/unscale round trip may move
+                            // every datum by an ulp or two (the property allows exactly that); on a problem that is
+                            // ill-posed - a point passing the documented optimality test AND a certificate passing the
+                            // documented infeasibility test both exist, or it is infeasible both ways - that is enough
+                            // to tip the verdict.  The mechanism signature is given only when (a) the file's data
+                            // really differ from the user's in some bit and (b) BOTH outcomes pass their own documented
+                            // tests on the user's problem; with bit-identical data the two solves are the same
+                            // deterministic computation and any difference stays a plain violation.
+                            let file_differs = match serde_json::from_slice::<Value>(&bytes) {
+                                Ok(v) => {
+                                    let arr = |x: &Value| -> Vec<f64> { x.as_array().map(|a| a.iter().map(|t| t.as_f64().unwrap_or(f64::NAN)).collect()).unwrap_or_default() };
+                                    let pt = p.P.to_triu();
+                                    !reduced
+                                        && (arr(&v["P"]["nzval"]).iter().zip(&pt.nzval).any(|(a, b)| a.to_bits() != b.to_bits())
+                                            || arr(&v["q"]).iter().zip(&p.q).any(|(a, b)| a.to_bits() != b.to_bits())
+                                            || arr(&v["A"]["nzval"]).iter().zip(&p.A.nzval).any(|(a, b)| a.to_bits() != b.to_bits())
+                                            || arr(&v["b"]).iter().zip(&p.b).any(|(a, b)| a.to_bits() != b.to_bits()))
+                                }
+                                Err(_) => false,
+                            };
+                            let passes_own_test = |r: &problem::SolveResult| -> bool {
+                                let pm = presolve_model(&p, &st, r, bound);
+                                if !pm.fails.is_empty() {
+                                    return false;
+                                }
+                                let ev = eval_with_model(&p, r, &pm, bound);
+                                match r.status {
+                                    SolverStatus::Solved => kkt::judge_solved(&ev, st.tol_feas, st.tol_gap_abs, st.tol_gap_rel, 1.0).is_empty(),
+                                    SolverStatus::AlmostSolved => kkt::judge_solved(&ev, st.reduced_tol_feas, st.reduced_tol_gap_abs, st.reduced_tol_gap_rel, 1.0).is_empty(),
+                                    s if problem::is_infeasible_status(s) => match r.final_event() {
+                                        Some(fe) => {
+                                            let almost = matches!(s, SolverStatus::AlmostPrimalInfeasible | SolverStatus::AlmostDualInfeasible);
+                                            let is_p = matches!(s, SolverStatus::PrimalInfeasible | SolverStatus::AlmostPrimalInfeasible);
+                                            let (ta, tr) = if almost { (st.reduced_tol_infeas_abs, st.reduced_tol_infeas_rel) } else { (st.tol_infeas_abs, st.tol_infeas_rel) };
+                                            judge_certificate(&ev, is_p, fe.κ, r.c, ta, tr).is_empty()
+                                        }
+                                        None => false,
+                                    },
+                                    _ => false,
+                                }
+                            };
+                            let ill_posed = st.equilibrate_enable && file_differs && passes_own_test(&r1) && passes_own_test(&r2);
+                            let sig = if ill_posed { "loaded_solve_verdict:rounding_tips_ill_posed_problem" } else { "loaded_solve_verdict" };
+                            bad(sig, json!({"original": status_name(r1.status), "loaded": status_name(r2.status), "file_data_differ_in_some_bit": file_differs,
+                                            "original_result": r1.summary_json(), "loaded_result": r2.summary_json()}));
                         } else if r1.status == SolverStatus::Solved && r2.status == SolverStatus::Solved {
                             let den = r1.obj_val.abs().max(1.0);
                             let tol = 20.0 * (st.tol_gap_abs + st.tol_gap_rel * den) + 1e-6 * den;
